@@ -19,14 +19,14 @@ TEXT = {
  "C09": "ecdf_is_the_fraction_of_length_at_or_below (left limit: strictly below), hist_probability_and_sum + bin_difference_is_the_length_of_values_in_the_bin, mode_is_a_value_of_maximal_total_length, percentile_is_the_midpoint_of_the_lower_and_upper_quantiles (minimum at 0, maximum at 100), quantiles_are_least_values_reaching_the_share + the_cumulative_share_is_the_ecdf, fractile_is_percentile_of_100p, median_is_percentile_50 - all for every well-formed function with a finite defined piece, through the pipeline the code uses (value sums -> ecdf -> quantile table -> one-sided limits). hist 'frequency' / 'density' (quotients of the proved sums), quantiles(q) (fractiles at i/q) and describe (a table of these statistics) are Python glue over the proved functions: correspondence + oracle (exact on power-of-two totals, 1e-9 otherwise).",
  "C10": "values_in_range_is_exactly_the_value_set (iff, for all 8 rows of the bisect-side table, bounded / half-bounded / unbounded windows, using density of the rational domain), sorted without duplicates, min / max are the least / greatest element. Windows need lower < upper (the code rejects others in clip/agg). Correspondence puts window end points on every step point for every row.",
  "C11": "a_slice_is_the_restriction, slicer statistics = statistics of the slice (the slicer maps over the intervals), slicer max / min = greatest / least value f takes at a defined point of the interval with the interval's own closedness (via C10 and one-sided limits), resample_is_piecewise_the_statistic (increasing non-overlapping slices; a slice whose statistic is undefined stays undefined). What mean / integral / median / mode of a slice are is C08 / C09; hist over slices, agg([...]) and apply are Python glue covered by the slicecall flavours.",
- "C12": "every_operation_returns_a_minimal_result, minimal_form_is_canonical, identical_decides_equality (iff), bool_is_true_exactly_for_the_constant_one, algebraic_identities_up_to_identical (7 identities). Minimality of scalar-path layering results is covered by the correspondence (raw step tables compared) rather than by a theorem.",
+ "C12": "every_operation_returns_a_minimal_result, minimal_form_is_canonical, identical_decides_equality (iff), bool_is_true_exactly_for_the_constant_one, algebraic_identities_up_to_identical (7 identities). Minimality of scalar-path layering results is covered by the correspondence (raw step tables compared) rather than by a theorem. from_values refuses an index that is not strictly increasing (model, oracle and programs); integer labels beyond 2**53 (`bigint` domain flavour) are exercised for identical().",
  "C13": "partial: frame rule on the model (a statement changes only its target register; reads and queries change no function; any program) is a theorem, but a functional model cannot exhibit numpy/pandas aliasing: 'results never share mutable state' is decided by mutate-then-observe programs (incl. in-place scalar layers at existing step points) and an object-identity check in the correspondence run.",
  "C14": "the model carries both caches; every_statement_keeps_the_caches_valid (invariant, for every statement), caches_valid_after_any_history, answers_never_stale (a cached answer equals the one computed from the current function alone, after any program), queries_change_no_function. Correspondence: histories interleaving scalar/vector layers (incl. undo, step-free and partly undefined receivers) with the 12 query kinds.",
  "C15": "side rule and mismatch-iff theorems for all binary operators (scalars on either side), mask/where/fillna by a function, one-operand operations, clip, layering, tuple shorthands (never a mismatch). Collection aggregation, cov/corr, shift and resample are covered by the complete shapes x sides grid of the correspondence check.",
  "C16": "binary_operators_respect_denotation, one_operand_operations_respect_denotation, materialisation_is_invisible: results depend only on the denoted functions and closed sides (for the minimal, well-formed objects the public API produces). Construction routes, scalar types and compositions are exercised by programs run in four provenance / materialisation / scalar-type variants each against the one model result.",
  "C17": "every theorem of C01-C07, C12, C15, C16 is stated for an arbitrary ordered domain (Ord D); relabelling by a strictly increasing map preserves well-formedness and commutes with evaluation and the binary operators; a change of unit / origin k -> a k + b (a > 0) is such a relabelling under which the integral and value sums scale by a while mean, the value distribution (ecdf, percentiles, median, hist probabilities) and var do not change. That pandas' int64 / datetime64 / tz-aware / Timedelta indexes are such images of one another (and that results come back as Timedeltas) is replayed on every run: each program is run in 7 domain flavours (int, float, naive datetime, tz-aware fixed / DST / UTC, timedelta) against the one model run.",
  "C18": "aggregation_is_pointwise (wf, minimal, side rule, pointwise reduce incl. NaN propagation), sum_is_folding_plus, aggregation_rejects_exactly_mixed_sides; the collection layer of Model/Arrays.v: array_operator_is_the_stairs_operator_pair_by_pair (+ broadcast scalar / Stairs, the r-forms, first failing member decides), sample / limit tables agree with per-member calls, matrices_are_square_and_symmetric, cov / corr matrix entries are the pairwise Stairs results in either order (via cov_symmetric / corr_symmetric of C19), corr diagonal one or undefined (= the self-correlation, which is one wherever defined). The table and matrix definitions are evaluated by the correspondence check against the real sc.sample / sc.limit / sc.cov / sc.corr calls; the element-wise operators are compared member by member (the theorem says that is arr_binop). Container types and the Series accessor: correspondence flavours.",
- "C19": "operands_are_restricted_to_the_common_defined_region (pointwise), cov_is_mean_of_product_minus_product_of_means (the composition the model mirrors from the code; its means are the length-weighted ones of C08), a_lag_is_a_shift_of_g_with_the_window_rule (clip='pre' / 'post'), cov_is_symmetric, corr_is_symmetric (via canonical minimal forms), corr_of_opposite_sides_is_rejected, cov_of_f_with_itself_is_var over finite windows (weighted_sums_depend_only_on_the_represented_function: the integral of a step table is a Riemann sum over any refinement of its step points) corr_lies_between_minus_one_and_one (Cauchy-Schwarz over the common refinement of the three clipped tables), var_over_a_window_is_non_negative and corr_of_f_with_itself_is_one. corr involves a square root: the model returns the signed square sign(cov) cov^2 / (var_f var_g) and the theorems are stated for it; numpy's sqrt, and datetime windows with Timedelta lags, are tied by the correspondence check + the rational oracle.",
+ "C19": "operands_are_restricted_to_the_common_defined_region (pointwise), cov_is_mean_of_product_minus_product_of_means (the composition the model mirrors from the code; its means are the length-weighted ones of C08), the model follows the repaired code (centred product, explicit closed-side check) and the_centred_form_is_the_formula: over every finite window it equals mean(f'g') - mean(f') mean(g') (four clipped tables as Riemann sums over a common refinement); cov_of_opposite_sides_is_rejected; a_lag_is_a_shift_of_g_with_the_window_rule (clip='pre' / 'post'), cov_is_symmetric, corr_is_symmetric (via canonical minimal forms), corr_of_opposite_sides_is_rejected, cov_of_f_with_itself_is_var over finite windows (weighted_sums_depend_only_on_the_represented_function: the integral of a step table is a Riemann sum over any refinement of its step points) corr_lies_between_minus_one_and_one (Cauchy-Schwarz over the common refinement of the three clipped tables), var_over_a_window_is_non_negative and corr_of_f_with_itself_is_one. corr involves a square root: the model returns the signed square sign(cov) cov^2 / (var_f var_g) and the theorems are stated for it; numpy's sqrt, and datetime windows with Timedelta lags, are tied by the correspondence check + the rational oracle.",
  "C20": "shift_translates and diff_is_f_minus_shifted_f; rolling_mean_returns_the_window_means_at_the_knots (the rows are exactly the x at which a window edge x+l / x+r meets a step point of f restricted to `where`, inside [lower-l, upper-r], each with the slicer mean over its window), the_window_mean_is_the_mean_of_the_restriction (that mean is the C08 length-weighted mean), and linear_interpolation_reproduces_the_rolling_mean (with no other sample point strictly between x1 and x2 and f defined throughout the windows, the window mean at every x in [x1, x2] is the linear interpolation of the means at x1 and x2; via a window integral that is additive and constant where no step point is crossed). Timedelta shifts and windows on datetime domains: correspondence (domain flavours).",
 }
 def main():
